@@ -160,6 +160,36 @@ func mutationsAt(nd ast.Node, apply *int) []mutDesc {
 					add("delete-call", "delete call statement", func() { x.List[i] = &ast.EmptyStmt{Semicolon: s.Pos()} })
 					out[len(out)-1].pos = s.Pos()
 				}
+			case *ast.BranchStmt:
+				if s.Label == nil && (s.Tok == token.BREAK || s.Tok == token.CONTINUE) {
+					i := i
+					add("delete-branch", "delete "+s.Tok.String(), func() { x.List[i] = &ast.EmptyStmt{Semicolon: s.Pos()} })
+					out[len(out)-1].pos = s.Pos()
+					other := token.BREAK
+					if s.Tok == token.BREAK {
+						other = token.CONTINUE
+					}
+					add("swap-branch", s.Tok.String()+" -> "+other.String(), func() { s.Tok = other })
+					out[len(out)-1].pos = s.Pos()
+				}
+			case *ast.ReturnStmt:
+				// a return that is not the last statement of its block is never one; the last one of an if-block often
+				// can go (the type checker refuses the mutant where a return is then missing)
+				i := i
+				add("delete-return", "delete return", func() { x.List[i] = &ast.EmptyStmt{Semicolon: s.Pos()} })
+				out[len(out)-1].pos = s.Pos()
+			}
+		}
+	case *ast.SliceExpr:
+		if !x.Slice3 && x.Low == nil && x.High != nil {
+			add("slice-flip", "x[:k] -> x[k:]", func() { x.Low, x.High = x.High, nil })
+		} else if !x.Slice3 && x.Low != nil && x.High == nil {
+			add("slice-flip", "x[k:] -> x[:k]", func() { x.High, x.Low = x.Low, nil })
+		}
+	case *ast.UnaryExpr:
+		if x.Op == token.NOT {
+			if _, isParen := x.X.(*ast.ParenExpr); !isParen { // !(cond) is what negate-if makes
+				add("drop-not", "!x -> !!x", func() { x.X = &ast.UnaryExpr{Op: token.NOT, X: &ast.ParenExpr{X: x.X}} })
 			}
 		}
 	case *ast.CallExpr:
